@@ -71,6 +71,8 @@ pub trait Svc {
     fn make_leaf(&self, tag: u32) -> Box<dyn Leaf>;
     fn make_fn(&self, k: u32) -> Box<dyn Fn(u32) -> u32>;
     fn fut(&self, ev: u32, stages: u32) -> Pin<Box<dyn Future<Output = u32>>>;
+    fn fut_bool(&self, ev: u32) -> Pin<Box<dyn Future<Output = bool>>>;
+    fn fut_char(&self, ev: u32) -> Pin<Box<dyn Future<Output = char>>>;
     fn many(&self, a0: u8, a1: u8, a2: u8, a3: u8, a4: u8, a5: u8, a6: u8, a7: u8, a8: u8, a9: u8, a10: u8, a11: u8, a12: u8, a13: u8, a14: u8, a15: u8, a16: u8, a17: u8, a18: u8, a19: u8, a20: u8, a21: u8, a22: u8, a23: u8, a24: u8, a25: u8, a26: u8, a27: u8, a28: u8, a29: u8, a30: u8, a31: u8, a32: u8, a33: u8, a34: u8, a35: u8, a36: u8, a37: u8, a38: u8, a39: u8, a40: u8, a41: u8, a42: u8, a43: u8, a44: u8, a45: u8, a46: u8, a47: u8, a48: u8, a49: u8, a50: u8, a51: u8, a52: u8, a53: u8, a54: u8, a55: u8, a56: u8, a57: u8, a58: u8, a59: u8, a60: u8, a61: u8, a62: u8, a63: u8) -> u32;
 }
 
@@ -306,6 +308,16 @@ impl Svc for SvcImpl {
             registered: false,
         })
     }
+    fn fut_bool(&self, ev: u32) -> Pin<Box<dyn Future<Output = bool>>> {
+        fault_point("fut_bool");
+        log(format!("impl.fut_bool ev={}", ev));
+        Box::pin(MapFut { inner: LeafFut { guard: Guard::new("future"), ev, stage: 0, stages: 1, lazy: false, registered: false }, f: |v: u32| v % 2 == 0 })
+    }
+    fn fut_char(&self, ev: u32) -> Pin<Box<dyn Future<Output = char>>> {
+        fault_point("fut_char");
+        log(format!("impl.fut_char ev={}", ev));
+        Box::pin(MapFut { inner: LeafFut { guard: Guard::new("future"), ev, stage: 0, stages: 1, lazy: false, registered: false }, f: |v: u32| char::from_u32(0x1F600 + v % 64).unwrap_or('x') })
+    }
     fn many(&self, a0: u8, a1: u8, a2: u8, a3: u8, a4: u8, a5: u8, a6: u8, a7: u8, a8: u8, a9: u8, a10: u8, a11: u8, a12: u8, a13: u8, a14: u8, a15: u8, a16: u8, a17: u8, a18: u8, a19: u8, a20: u8, a21: u8, a22: u8, a23: u8, a24: u8, a25: u8, a26: u8, a27: u8, a28: u8, a29: u8, a30: u8, a31: u8, a32: u8, a33: u8, a34: u8, a35: u8, a36: u8, a37: u8, a38: u8, a39: u8, a40: u8, a41: u8, a42: u8, a43: u8, a44: u8, a45: u8, a46: u8, a47: u8, a48: u8, a49: u8, a50: u8, a51: u8, a52: u8, a53: u8, a54: u8, a55: u8, a56: u8, a57: u8, a58: u8, a59: u8, a60: u8, a61: u8, a62: u8, a63: u8) -> u32 {
         fault_point("many");
         let s = (a0 as u32) * 1 + (a1 as u32) * 2 + (a2 as u32) * 3 + (a3 as u32) * 4 + (a4 as u32) * 5 + (a5 as u32) * 6 + (a6 as u32) * 7 + (a7 as u32) * 8 + (a8 as u32) * 9 + (a9 as u32) * 10 + (a10 as u32) * 11 + (a11 as u32) * 12 + (a12 as u32) * 13 + (a13 as u32) * 14 + (a14 as u32) * 15 + (a15 as u32) * 16 + (a16 as u32) * 17 + (a17 as u32) * 18 + (a18 as u32) * 19 + (a19 as u32) * 20 + (a20 as u32) * 21 + (a21 as u32) * 22 + (a22 as u32) * 23 + (a23 as u32) * 24 + (a24 as u32) * 25 + (a25 as u32) * 26 + (a26 as u32) * 27 + (a27 as u32) * 28 + (a28 as u32) * 29 + (a29 as u32) * 30 + (a30 as u32) * 31 + (a31 as u32) * 32 + (a32 as u32) * 33 + (a33 as u32) * 34 + (a34 as u32) * 35 + (a35 as u32) * 36 + (a36 as u32) * 37 + (a37 as u32) * 38 + (a38 as u32) * 39 + (a39 as u32) * 40 + (a40 as u32) * 41 + (a41 as u32) * 42 + (a42 as u32) * 43 + (a43 as u32) * 44 + (a44 as u32) * 45 + (a45 as u32) * 46 + (a46 as u32) * 47 + (a47 as u32) * 48 + (a48 as u32) * 49 + (a49 as u32) * 50 + (a50 as u32) * 51 + (a51 as u32) * 52 + (a52 as u32) * 53 + (a53 as u32) * 54 + (a54 as u32) * 55 + (a55 as u32) * 56 + (a56 as u32) * 57 + (a57 as u32) * 58 + (a58 as u32) * 59 + (a59 as u32) * 60 + (a60 as u32) * 61 + (a61 as u32) * 62 + (a62 as u32) * 63 + (a63 as u32) * 64;
@@ -357,6 +369,19 @@ impl Future for LeafFut {
     }
 }
 
+/// a leaf future whose output is mapped to another type (outputs of one or four bytes with invalid bit patterns:
+/// bool, char)
+pub struct MapFut<T> {
+    pub inner: LeafFut,
+    pub f: fn(u32) -> T,
+}
+impl<T> Future for MapFut<T> {
+    type Output = T;
+    fn poll(mut self: Pin<&mut Self>, cx: &mut Context<'_>) -> Poll<T> {
+        let f = self.f;
+        Pin::new(&mut self.inner).poll(cx).map(f)
+    }
+}
 impl Drop for LeafFut {
     fn drop(&mut self) {
         // the future owns the waker it registered: it goes away with the future
@@ -395,6 +420,8 @@ pub mod alt {
         fn extra_first(&self) -> u32;
         fn many(&self, a0: u8, a1: u8, a2: u8, a3: u8, a4: u8, a5: u8, a6: u8, a7: u8, a8: u8, a9: u8, a10: u8, a11: u8, a12: u8, a13: u8, a14: u8, a15: u8, a16: u8, a17: u8, a18: u8, a19: u8, a20: u8, a21: u8, a22: u8, a23: u8, a24: u8, a25: u8, a26: u8, a27: u8, a28: u8, a29: u8, a30: u8, a31: u8, a32: u8, a33: u8, a34: u8, a35: u8, a36: u8, a37: u8, a38: u8, a39: u8, a40: u8, a41: u8, a42: u8, a43: u8, a44: u8, a45: u8, a46: u8, a47: u8, a48: u8, a49: u8, a50: u8, a51: u8, a52: u8, a53: u8, a54: u8, a55: u8, a56: u8, a57: u8, a58: u8, a59: u8, a60: u8, a61: u8, a62: u8, a63: u8) -> u32;
         fn fut(&self, ev: u32, stages: u32) -> Pin<Box<dyn Future<Output = u32>>>;
+        fn fut_char(&self, ev: u32) -> Pin<Box<dyn Future<Output = char>>>;
+        fn fut_bool(&self, ev: u32) -> Pin<Box<dyn Future<Output = bool>>>;
         fn make_fn(&self, k: u32) -> Box<dyn Fn(u32) -> u32>;
         fn make_leaf(&self, tag: u32) -> Box<dyn Leaf>;
         fn drop_leaves(&mut self) -> u32;
@@ -429,6 +456,12 @@ pub mod alt {
         }
         fn fut(&self, ev: u32, stages: u32) -> Pin<Box<dyn Future<Output = u32>>> {
             <SvcImpl as super::Svc>::fut(self, ev, stages)
+        }
+        fn fut_bool(&self, ev: u32) -> Pin<Box<dyn Future<Output = bool>>> {
+            <SvcImpl as super::Svc>::fut_bool(self, ev)
+        }
+        fn fut_char(&self, ev: u32) -> Pin<Box<dyn Future<Output = char>>> {
+            <SvcImpl as super::Svc>::fut_char(self, ev)
         }
         fn make_fn(&self, k: u32) -> Box<dyn Fn(u32) -> u32> {
             <SvcImpl as super::Svc>::make_fn(self, k)
@@ -502,6 +535,60 @@ pub mod alt {
         }
         fn add(&self, a: u32, b: u32) -> u32 {
             <SvcImpl as super::Svc>::add(self, a, b)
+        }
+    }
+}
+
+
+/// Version skew in the other direction: a NEWER caller (interface version 1, an enum with a variant added in version 1)
+/// and an OLDER implementation (version 0). Known variants must arrive unchanged whether they travel by reference or
+/// serialized; the variant the implementation does not know must be refused on the way - the implementation must
+/// never be handed a discriminant that is not one of its own.
+pub mod skew {
+    pub mod newer {
+        use savefile_derive::{savefile_abi_exportable, Savefile};
+        #[derive(Savefile, Debug, Clone, PartialEq)]
+        #[repr(C, u8)]
+        pub enum Sig {
+            A(u32),
+            B(u32),
+            #[savefile_versions = "1.."]
+            C(u32),
+        }
+        #[savefile_abi_exportable(version = 1)]
+        pub trait EnumSvc {
+            fn tag(&self, s: &Sig) -> u32;
+        }
+    }
+    pub mod older {
+        use crate::world::{fault_point, log, Guard};
+        use savefile_derive::{savefile_abi_exportable, Savefile};
+        #[derive(Savefile, Debug, Clone, PartialEq)]
+        #[repr(C, u8)]
+        pub enum Sig {
+            A(u32),
+            B(u32),
+        }
+        #[savefile_abi_exportable(version = 0)]
+        pub trait EnumSvc {
+            fn tag(&self, s: &Sig) -> u32;
+        }
+        pub struct OldImpl(pub Guard);
+        impl EnumSvc for OldImpl {
+            fn tag(&self, s: &Sig) -> u32 {
+                fault_point("old.tag");
+                // look at the discriminant through a raw byte first: an invalid one must be seen, not matched on
+                let d = unsafe { *(s as *const Sig as *const u8) };
+                if d > 1 {
+                    log(format!("old.tag INVALID-DISCRIMINANT {}", d));
+                    return 999_999;
+                }
+                log(format!("old.tag {:?}", s));
+                match s {
+                    Sig::A(x) => x.wrapping_add(1),
+                    Sig::B(x) => x.wrapping_add(2),
+                }
+            }
         }
     }
 }
